@@ -40,7 +40,9 @@ import (
 
 var (
 	c11Spellings = []string{"lower", "UPPER", "Mixed", "dotted-section-syntax"}
-	c11Mults     = []string{"single", "duplicated", "with-safe-key", "via-include", "newline-injected", "then-garbage"}
+	c11Mults     = []string{"single", "duplicated", "with-safe-key", "via-include", "newline-injected", "then-garbage",
+		// multiplicities that only make sense together with a Git-side value: the duplicated key repeats Git's own value
+		"dup[gitval,other]", "dup[other,gitval]", "dup[gitval,gitval,other]"}
 	c11Locs      = []string{"worktree", "index-only", "HEAD-only", "bare-HEAD"}
 	c11GitSides  = []string{"absent", "local", "global", "env", "included", "worktree-config"}
 )
@@ -101,6 +103,9 @@ func c11Companion(k c11Key) (canon string, stanzaKey c11Key) {
 
 const c11SafeVal = "c11safe*"
 
+// c11NBaseMults is the number of multiplicities that do not refer to the Git-side value.
+const c11NBaseMults = 6
+
 // c11LfsConfig returns the .lfsconfig text, the text of the included file ("" if none) and the values of the
 // hostile key that the file carries (last = the one that would be in effect).
 func c11LfsConfig(c c11Case, incPath string) (main, inc string, vals []string, companion string) {
@@ -118,8 +123,14 @@ func c11LfsConfig(c c11Case, incPath string) (main, inc string, vals []string, c
 	case 4:
 		cc, ck := c11Companion(k)
 		return c11Stanza(ck, 0, c11SafeVal+"\n"+k.Canon()+"="+k.Val), "", []string{k.Val}, cc
-	default:
+	case 5:
 		return c11Stanza(k, c.Spelling, k.Val) + "[unterminated \"\n\tthis is = not [valid\n", "", []string{k.Val}, ""
+	case 6:
+		return c11Stanza(k, c.Spelling, k.GitVal) + c11Stanza(k, c.Spelling, k.Val), "", []string{k.GitVal, k.Val}, ""
+	case 7:
+		return c11Stanza(k, c.Spelling, k.Val) + c11Stanza(k, c.Spelling, k.GitVal), "", []string{k.Val, k.GitVal}, ""
+	default:
+		return c11Stanza(k, c.Spelling, k.GitVal) + c11Stanza(k, c.Spelling, k.GitVal) + c11Stanza(k, c.Spelling, k.Val), "", []string{k.GitVal, k.GitVal, k.Val}, ""
 	}
 }
 
@@ -531,22 +542,37 @@ func c11InprocCase(x *vx.X, thorough bool) c11Case {
 		return c11Documented(cn) || k.Sec == "remote" || strings.HasPrefix(cn, "lfs.extension.")
 	}
 	if thorough {
-		// 0 = full product with gitside in {absent, local}; 1 = Git-level slice (every level x every location)
-		if x.In(2) == 0 {
+		// 0 = full product with gitside in {absent, local}; 1 = Git-level slice (every level x every location);
+		// 2 = coincidence slice (level keys x duplicated-with-Git's-value multiplicities x every level x every location)
+		top := x.In(3)
+		if top == 0 {
 			c.Key = c11Keys[x.In(len(c11Keys))]
 			c.Spelling = x.In(nSpell(c.Key))
-			c.Mult = x.In(len(c11Mults))
+			c.Mult = x.In(c11NBaseMults)
 			c.Loc = x.In(len(c11Locs))
 			c.GitSide = x.In(2)
 			return c
 		}
 		sub := c11LevelKeys()
 		c.Key = sub[x.In(len(sub))]
+		if top == 2 {
+			c.Mult = c11NBaseMults + x.In(len(c11Mults)-c11NBaseMults)
+		}
 		c.GitSide = 1 + x.In(len(c11GitSides)-1)
 		c.Loc = x.In(len(c11Locs))
 		return c
 	}
-	switch x.In(5) {
+	switch x.In(6) {
+	case 5: // coincidence slice: the duplicated .lfsconfig key repeats the value Git's own configuration has
+		// (documented keys: every Git level; remote.* / lfs.extension.* keys: Git-local), worktree location
+		sub := c11LevelKeys()
+		c.Key = sub[x.In(len(sub))]
+		c.Mult = c11NBaseMults + x.In(len(c11Mults)-c11NBaseMults)
+		if c11Documented(c.Key.Canon()) {
+			c.GitSide = 1 + x.In(len(c11GitSides)-1)
+		} else {
+			c.GitSide = 1
+		}
 	case 0: // every key at every location
 		c.Key = c11Keys[x.In(len(c11Keys))]
 		c.Loc = x.In(len(c11Locs))
@@ -556,7 +582,7 @@ func c11InprocCase(x *vx.X, thorough bool) c11Case {
 	case 2: // every key in every non-default multiplicity (the garbage-line variant only for the level-slice keys:
 		// it makes `git config` fail as a whole, whatever the key)
 		c.Key = c11Keys[x.In(len(c11Keys))]
-		n := len(c11Mults) - 2
+		n := c11NBaseMults - 2
 		if isLevelKey(c.Key) {
 			n++
 		}
@@ -641,8 +667,18 @@ func (w *c11Worker) runInproc(x *vx.X, thorough bool) vx.Result {
 
 	// --- disposition of the hostile key
 	all := o.All[canon]
+	// lonly: the values that exist only in .lfsconfig (a value equal to the one Git's own configuration sets is Git's)
+	lonly := lvals
+	if c.GitSide != 0 {
+		lonly = nil
+		for _, v := range lvals {
+			if v != k.GitVal {
+				lonly = append(lonly, v)
+			}
+		}
+	}
 	visible := false
-	for _, v := range lvals {
+	for _, v := range lonly {
 		if c11Contains(all, v) {
 			visible = true
 		}
@@ -651,7 +687,7 @@ func (w *c11Worker) runInproc(x *vx.X, thorough bool) vx.Result {
 	if len(all) > 0 {
 		last = all[len(all)-1]
 	}
-	inEffect := visible && (c11Contains(lvals, last) || c11ReMultiReaders.MatchString(c11FoldKey(canon)))
+	inEffect := visible && (c11Contains(lonly, last) || c11ReMultiReaders.MatchString(c11FoldKey(canon)))
 	warned := strings.Contains(o.Stderr, "keys were ignored") && strings.Contains(o.Stderr, "  "+canon+"\n")
 	documented := c11Documented(canon)
 	consumed := c11Rd.Consumed(canon)
@@ -689,10 +725,12 @@ func (w *c11Worker) runInproc(x *vx.X, thorough bool) vx.Result {
 	prec := ""
 	if c.GitSide != 0 && !o.LoadErr {
 		prec = " git-wins"
-		if last != k.GitVal && !c11Contains(lvals, last) {
+		if last == k.GitVal {
+			// Git's value is the effective one
+		} else if !c11Contains(lonly, last) {
 			// neither value is what git-lfs uses (e.g. a key git-lfs cannot parse out of `git config -l`): nobody wins
 			prec = " neither-wins"
-		} else if c11Contains(lvals, last) {
+		} else {
 			prec = " GIT-LOSES"
 			viol("C11:lfsconfig-beats-git:"+class+":"+c11GitSides[c.GitSide],
 				fmt.Sprintf("key %q is set to %q in Git's own configuration (%s) and to %q in .lfsconfig, but Git.Get returns %q (all=%q)", canon, k.GitVal, c11GitSides[c.GitSide], lvals, last, all))
@@ -1002,10 +1040,10 @@ func TestVerifC11(t *testing.T) {
 	}
 	c.Rule = "inproc: one case = one .lfsconfig holding ONE dictionary key (section x subsection shape x variable; dictionary = curated list of every key git-lfs/git reads " +
 		"+ every key literal extracted from the Go sources of the tree at check time) in one spelling {lower, UPPER, Mixed, [section.sub] syntax} and multiplicity " +
-		"{single, duplicated, next to a safe key, via [include], injected through a newline in a safe key's value, followed by a garbage line} at one location " +
+		"{single, duplicated, next to a safe key, via [include], injected through a newline in a safe key's value, followed by a garbage line; with a Git-side value also: duplicated with one copy equal to Git's value} at one location " +
 		"{worktree file, index only, HEAD only, bare HEAD} with the same key absent/present at one level of Git's own configuration {local, global, GIT_CONFIG_COUNT env, included file, worktree config}; " +
 		"loaded by the real config.New() in a process whose cwd is the repository and observed through Git.All(), Extensions(), Remotes(), Remote()/PushRemote(), the real endpoint finder and tq manifest. " +
-		"quick = union of axis-aligned slices (all keys x 4 locations; all keys x applicable spellings; all keys x multiplicities [garbage-line variant: level keys only]; all keys x Git-local; documented/remote.*/lfs.extension.* keys x (5 Git levels at worktree + Git-local at the 3 other locations)), thorough = full product keys x spellings x multiplicities x locations x {absent, Git-local} + level keys x 5 levels x 4 locations. " +
+		"quick = union of axis-aligned slices (all keys x 4 locations; all keys x applicable spellings; all keys x multiplicities [garbage-line variant: level keys only]; all keys x Git-local; documented/remote.*/lfs.extension.* keys x (5 Git levels at worktree + Git-local at the 3 other locations); coincidence slice: the same level keys listed twice/thrice in .lfsconfig with one value EQUAL to the Git-level value {[gitval,other],[other,gitval],[gitval,gitval,other]} x (documented keys: 5 Git levels, others: Git-local) at worktree), thorough = full product keys x spellings x multiplicities x locations x {absent, Git-local} + level keys x 5 levels x 4 locations + coincidence slice x 5 levels x 4 locations. " +
 		"e2e: one case = one hostile key group (or all groups together) placed in .lfsconfig / in Git's own config (control) / in both, at one location, then a fixed script of real git-lfs commands " +
 		"(env, add via filter-process, push, fetch, pull, locks, smudge, install --local, ext list) against a good and an evil fake LFS server with sentinel programs. " +
 		"distinct_nontrivial = distinct cases in which the .lfsconfig was demonstrably parsed by git-lfs (its key was reported as ignored, or a value of it reached the environment)"
@@ -1017,7 +1055,8 @@ func TestVerifC11(t *testing.T) {
 	}
 	c.Bounds["dictionary_keys"] = len(c11Keys)
 	c.Bounds["spellings"] = len(c11Spellings)
-	c.Bounds["multiplicities"] = len(c11Mults)
+	c.Bounds["multiplicities"] = c11NBaseMults
+	c.Bounds["coincidence_multiplicities"] = len(c11Mults) - c11NBaseMults
 	c.Bounds["locations"] = len(c11Locs)
 	c.Bounds["git_levels"] = len(c11GitSides) - 1
 	c.Bounds["level_slice_keys"] = len(c11LevelKeys())
